@@ -82,10 +82,31 @@ class UserNote(akppobj.PPObj):
         return CHText(cp.frame("["), CHText(cp.text(", ")).join(cp.label(str(x)) for x in self.items), cp.frame("]"))
 
 
+def _themed_table_palette(theme, border_descr):
+    """palette classes made by a factory: distinct classes that look alike (same module, same qualified name),
+    each with defaults of its own"""
+    class ThemedTablePalette(PPTable.TablePalette):
+        PARENT_PALETTES = [PPTable.TablePalette]       # (it uses syntaxes declared by the class it derives from)
+        SYNTAX_DEFAULTS = {f"THEME.{theme}.BORDER": border_descr, f"THEME.{theme}.NUM": "NUMBER:underline"}
+        border = ConfColor(f"THEME.{theme}.BORDER")
+        number = ConfColor(f"THEME.{theme}.NUM")
+    return ThemedTablePalette
+
+
+def _themed_pp_palette(theme, name_descr):
+    class ThemedPPPalette(PrettyPrinter.PPPalette):
+        PARENT_PALETTES = [PrettyPrinter.PPPalette]
+        SYNTAX_DEFAULTS = {f"THEME.{theme}.KEY": name_descr}
+        name = ConfColor(f"THEME.{theme}.KEY")
+    return ThemedPPPalette
+
+
 PALETTES = {
     "PPPalette": PrettyPrinter.PPPalette, "GHistPalette": akghist.GHistReport.GHistPalette,
     "red": RedTablePalette, "sub": SubTablePalette, "altpp": AltPPPalette,
     "altghist": AltGHistPalette, "altrec": AltRecPalette,
+    "theme_a": _themed_table_palette("A", "BLUE:bold"), "theme_b": _themed_table_palette("B", "MAGENTA/YELLOW"),
+    "pptheme_a": _themed_pp_palette("A", "CYAN:underline"), "pptheme_b": _themed_pp_palette("B", "RED:bold"),
 }
 
 # palette classes that an application may instantiate directly ("first use of a component")
